@@ -24,7 +24,7 @@ RULE = (
 )
 BOUNDS = {"rows_new_frame": "0-8", "frames_per_fit": "3-5", "train_rows": "12-400"}
 ASSUMPTIONS = ["new frames always carry every fitted column (missing columns are C19's subject)"]
-BUDGET = {"quick": 800, "thorough": 30000}
+BUDGET = {"quick": 1000, "thorough": 30000}
 DEADLINE_S = {"quick": 200, "thorough": 3300}
 CLASSES = CARVERS + PIPELINES + STEPS + ("BinaryCarver", "ContinuousCarver", "Discretizer", "ChainedDiscretizer")
 STR_NAN, STR_DEFAULT = "__NAN__", "__OTHER__"
